@@ -87,9 +87,14 @@ def cases(draw, tier):
     kids = []
     n = draw(st.integers(1, 6 if big else 5))
 
-    def transfer(pi=None):
+    def transfer(pi=None, first=True):
         V = draw(st.sampled_from([0, 0.5, 1, 2, 3, 4, 6, 8, 12]))
         L = draw(st.sampled_from([None, None] + DY + ['inf']))        # 'inf': limited by the pipe only, like None
+        if first and draw(st.integers(0, 9)) == 0:
+            # (only for a transfer that starts on a date of the grid: arriving an ulp before or after the completion of
+            #  another transfer makes all the difference for such a limit, see section 10)
+            # one limit orders of magnitude above the others (exactly representable): it dominates every sum of limits
+            L = draw(st.sampled_from([2.0 ** 60, 2.0 ** 70, 2.0 ** 40]))
         return {'op': 'transfer', 'p': draw(st.integers(0, len(pipes) - 1)) if pi is None else pi, 'total': V, 'thr': L}
     for i in range(n):
         tr = transfer()
@@ -125,7 +130,7 @@ def cases(draw, tier):
     if draw(st.integers(0, 2)) == 0:
         # transfers of an activity outside the scope share the pipes with whatever happens inside
         roots.append({'name': 'ot', 'steps': [{'op': 'sleep', 'd': draw(st.sampled_from([0, 0.5, 1]))}, transfer(0),
-                                              transfer(len(pipes) - 1)]})
+                                              transfer(len(pipes) - 1, first=False)]})
     fin = {'name': 'fin', 'steps': [{'op': 'at_ge', 't': 1000}]}
     for pi in range(len(pipes)):
         fin['steps'] += [{'op': 'transfer', 'p': pi, 'total': 4, 'thr': None}, {'op': 'transfer', 'p': pi, 'total': 3, 'thr': 1}]
@@ -207,6 +212,27 @@ def judge(out, case, it, oc, exc, ctx):
                 remove = F(rt)
             trs.append({'start': F(b[4]), 'V': F(num(node['total'])), 'L': L, 'remove': remove})
             keys.append((key, b, okev))
+        done, amb = fluid(T, trs)
+        # A transfer that an activity starts in the time step in which an earlier one of its own has completed arrives -
+        # in exact arithmetic - exactly at that completion; the logged (rounded) date may lie an ulp before the exact
+        # one, which would make the two overlap in the model (a newcomer with a huge limit would starve the last bit
+        # of its predecessor): such arrivals are tied to the model's own completion date of the predecessor.
+        follows = {}
+        for i, (key, b, okev) in enumerate(keys):
+            for j, (key2, b2, okev2) in enumerate(keys):
+                if j != i and key2[0] == key[0] and okev2 is not None and okev2[0] < b[0] and okev2[4] == b[4]:
+                    follows[i] = j
+        unplaced = sorted(follows, key=lambda i: float(trs[i]['start']))
+        while unplaced:
+            i = unplaced.pop(0)
+            # the model without this follower and the ones that arrive still later: what happens before it arrives does
+            # not depend on them, so the completion date of its predecessor is final
+            t_i = float(trs[i]['start'])
+            idx = [k for k in range(len(trs)) if k != i and not (k in unplaced and float(trs[k]['start']) >= t_i)]
+            sub_done, _ = fluid(T, [trs[k] for k in idx])
+            d_prev = dict(zip(idx, sub_done)).get(follows[i])
+            if d_prev is not None and abs(t_i - float(d_prev)) <= 1e-9 * (1 + abs(float(d_prev))):
+                trs[i]['start'] = d_prev
         done, amb = fluid(T, trs)
         for (key, b, okev), tr, d, a in zip(keys, trs, done, amb):
             if a:
